@@ -2,4 +2,4 @@
 Require Extraction.
 Require Import ExtrOcamlBasic.
 From Gatery Require Import StreamDefs.
-Extraction "c16_model.ml" runChain chainOf.
+Extraction "c16_model.ml" runChain chainOf matchD.
